@@ -128,6 +128,7 @@ type evmTx struct {
 	handoffs       map[string]int
 	mutated        bool // orphaned / re-mined / status flipped at some point
 	failFirstHead  uint64
+	headAtDelivery uint64 // newest head the poller had been served when the log notification went out
 	abandonLegit   bool
 	pendingSeen    map[string]bool // "log index/block hash" -> the watcher held this message in its pending set at some point
 }
@@ -278,6 +279,7 @@ func (s *evmSim) notify(tx *evmTx, b *evmBlock, removed bool) {
 			_ = sub.notifier.Notify(sub.id, l.pack(tx, b, i, removed))
 			if !removed {
 				tx.deliveredInc, tx.deliveredBlock = sub.inc, b
+				tx.headAtDelivery = s.maxHeadServed
 			}
 			s.stats.Probe("log-notifications")
 		}
@@ -563,8 +565,13 @@ func (s *evmSim) release(p *evmParked) {
 			// at least 60 blocks further on
 			for _, tx := range s.txs {
 				if tx.hash.Hex() == p.key {
+					// The header loop may lag behind the poller (a stalled lookup holds it up while newer
+					// heads are already fetched), so the head it is working on when a lookup fails is only
+					// known to lie between the head served when the log was delivered and the newest head
+					// served. The window is judged against the lower end: two failed lookups, the later
+					// one at least 60 heads after the head at which the message can first have been ready.
 					if tx.failFirstHead == 0 {
-						tx.failFirstHead = s.maxHeadServed + 1
+						tx.failFirstHead = tx.headAtDelivery + 1
 					} else if s.maxHeadServed+1 >= tx.failFirstHead+60 {
 						tx.abandonLegit = true
 					}
